@@ -317,6 +317,11 @@ class SqlCon:
         if up == "COMMIT":
             if not self.in_transaction:
                 raise PyRaise(sqlite3.OperationalError("cannot commit - no transaction is active"))
+            if getattr(self.db, "busy_commits", 0) > 0:
+                # another connection holds a read lock: COMMIT fails with SQLITE_BUSY, the transaction stays open and can be committed later
+                self.db.busy_commits -= 1
+                self.db.log.append(("commit refused (busy)", {k: len(v["rows"]) for k, v in self.work.items()}))
+                raise PyRaise(sqlite3.OperationalError("database is locked"))
             self.db.tables = self.work
             self.db.log.append(("commit", {k: len(v["rows"]) for k, v in self.work.items()}))
             self.in_transaction, self.work = False, None
